@@ -560,6 +560,9 @@ def _has_optional_number(repo, fi) -> bool:
 
 
 def run(ctx):
+    from ..lints import check_stale_loop_variables
+
+    check_stale_loop_variables(ctx, "C11-D8 loop-variables", ['operators._io', 'operators._pauli_operators', 'measurements.measurements', 'measurements.parities', 'measurements.expectation_values', 'estimation._estimation', 'utils', 'wavefunction', 'circuits.layouts'])
     for name, w, r, root, allow in PAIRS:
         check_pair(ctx, R1, name, w, r, root, allow_unread=allow)
     for key in ("measurements.expectation_values:ExpectationValues.to_dict", "measurements.parities:Parities.to_dict", "utils:save_nmeas_estimate", "utils:convert_array_to_dict", f"{OIO}:convert_op_to_dict", "utils:ValueEstimate.to_dict"):
